@@ -85,8 +85,36 @@ func (m *mon) runQuantile() {
 		}
 		x := scaleBy(genData(r, class, n), e)
 		w := genWeights(r, wk, n)
+		if scalableKind(wk) {
+			// weight scale classes ~1e-30, 1, ~1e30: only sums of weights are
+			// formed, so every class is in range
+			w = scaleBy(w, weightExps[r.Intn(len(weightExps))])
+		}
 		x, w = sortTogether(x, w)
 		m.quantileCase(r, ci, x, w, class, wk, true)
+		if w != nil {
+			// scaling all weights by 2^k scales every partial sum exactly: the
+			// selected order statistic and the CDF must not change at all
+			k := r.PickInt(60, -60, 200, -200)
+			w2 := scaleBy(w, k)
+			p := r.PickFloat(0, 1, 0.5, r.Float64(), r.Float64())
+			q := x[r.Intn(n)]
+			rp := func() any { return replayCase{"func": "Quantile/CDF", "p": p, "q": q, "x": x, "weights": w, "k": k} }
+			var a1, a2, b1, b2, c1, c2 float64
+			if m.try("Quantile", "weight-scaling", rp, func() {
+				a1, a2 = stat.Quantile(p, stat.Empirical, cp(x), cp(w)), stat.Quantile(p, stat.Empirical, cp(x), w2)
+				b1, b2 = stat.Quantile(p, stat.LinInterp, cp(x), cp(w)), stat.Quantile(p, stat.LinInterp, cp(x), w2)
+				c1, c2 = stat.CDF(q, stat.Empirical, cp(x), cp(w)), stat.CDF(q, stat.Empirical, cp(x), w2)
+			}) {
+				c.EvalN("Quantile/CDF|weight-scale|"+wk+"|"+class, 6, true)
+				un := 8 * u * math.Max(math.Abs(x[0]), math.Abs(x[n-1]))
+				if a1 != a2 {
+					c.Violationf(sig("Quantile/Empirical", "weighted", "changes when all weights are scaled by 2^k"), rp(), "%v vs %v", a1, a2)
+				}
+				m.rel("Quantile/LinInterp", "weighted", "changes when all weights are scaled by 2^k", b1, b2, un, rp)
+				m.rel("CDF", "weighted", "changes when all weights are scaled by 2^k", c1, c2, float64(n+8)*u*2, rp)
+			}
+		}
 		if (wk == wInts || wk == wIntsZ) && n <= 80 {
 			// integer weights == replication: the replicated sample has the same
 			// exact quantile function, so it is judged by the same oracle.
